@@ -8,6 +8,8 @@
 //!   builtins : call classification of every `CallDef` in the compiled standard library.
 //!   stack    : traces of the real `Stack::next` (jaq-core/src/stack.rs is compiled into this
 //!              harness from the repo's working tree) on seeded random iterator scripts.
+//!   nstack   : the same for a `Stack` whose iterators are `Stack`s (ties `Stack::size_hint`).
+//!   adapters : real `once`/`Chain`/`once_with(..).flatten()` terms vs the model `Ad` (next, size_hint).
 //! The runtime probes (fixed small thread stack, counting allocator) are in `src/bin/c04_alloc.rs`.
 use super::prng::{self, Rng};
 use jaq_core::compile::Compiler;
@@ -1067,6 +1069,215 @@ fn stack_cmd(args: &[String]) {
     }
 }
 
+// ---------------------------------------------------------------------------------------------
+// a Stack of Stacks (round 2): ties `Stack::size_hint` (be431db) to the model `Stack.hintZero`.
+// Script heads `E`/`I` mark iterators that are instantiated as a nested stack
+// `Stack::new(vec![script k], catch-one k)`: it takes `t<k>` itself and hands every other item on.
+// Copies are named by their script index (`n<k>`); the trace records after every pull the live
+// script iterators and the live nested stacks (`#<its>/<stacks>`).
+
+struct NestedIt {
+    st: real_stack::Stack<ScriptIt, Box<dyn Fn(Item) -> core::ops::ControlFlow<Item, ScriptIt>>>,
+    live: Rc<RefCell<usize>>,
+}
+
+impl Iterator for NestedIt {
+    type Item = Item;
+    fn next(&mut self) -> Option<Item> {
+        self.st.next()
+    }
+    fn size_hint(&self) -> (usize, Option<usize>) {
+        self.st.size_hint()
+    }
+}
+
+impl Drop for NestedIt {
+    fn drop(&mut self) {
+        *self.live.borrow_mut() -= 1;
+    }
+}
+
+fn nstack_cmd(args: &[String]) {
+    use core::ops::ControlFlow;
+    let n: usize = args.first().and_then(|s| s.parse().ok()).unwrap_or(300);
+    let mut rng = Rng::new(prng::seed_from_env() ^ 0x4E57);
+    for case in 0..n {
+        let k = 1 + rng.below(4);
+        // every pull terminates: see `stack_cmd`
+        let script: Vec<(bool, bool, Vec<Item>)> = (0..k)
+            .map(|me| {
+                let len = rng.below(5);
+                let mut seen_out = false;
+                let items = (0..len)
+                    .map(|_| {
+                        let t = rng.below(k);
+                        if rng.chance(1, 2) && (seen_out || t > me) {
+                            Item::Tail(t)
+                        } else {
+                            seen_out = true;
+                            Item::Out(rng.below(5))
+                        }
+                    })
+                    .collect();
+                (!rng.chance(1, 5), rng.chance(1, 2), items)
+            })
+            .collect();
+        let pulls = 1 + rng.below(12);
+        let mut req = format!("c04.nstack {pulls} {k}");
+        for (exact, nested, items) in &script {
+            let head = match (*exact, *nested) {
+                (true, false) => 'e',
+                (false, false) => 'i',
+                (true, true) => 'E',
+                (false, true) => 'I',
+            };
+            write!(req, " {head}{}", items.len()).unwrap();
+            for it in items {
+                match it {
+                    Item::Out(v) => write!(req, " o{v}").unwrap(),
+                    Item::Tail(t) => write!(req, " t{t}").unwrap(),
+                }
+            }
+        }
+        let log = Rc::new(RefCell::new(Vec::new()));
+        let live = Rc::new(RefCell::new(0usize));
+        let nlive = Rc::new(RefCell::new(0usize));
+        let script = Rc::new(script);
+        let mk = {
+            let (log, live, script) = (log.clone(), live.clone(), script.clone());
+            move |k: usize| {
+                *live.borrow_mut() += 1;
+                ScriptIt { items: script[k].2.clone().into_iter(), exact: script[k].0, uid: k, log: log.clone(), live: live.clone() }
+            }
+        };
+        let mk_node = {
+            let (mk, nlive, script) = (mk.clone(), nlive.clone(), script.clone());
+            move |k: usize| -> Box<dyn Iterator<Item = Item>> {
+                if script[k].1 {
+                    *nlive.borrow_mut() += 1;
+                    let mk2 = mk.clone();
+                    let fi: Box<dyn Fn(Item) -> ControlFlow<Item, ScriptIt>> = Box::new(move |x: Item| match x {
+                        Item::Tail(j) if j == k => ControlFlow::Continue(mk2(j)),
+                        x => ControlFlow::Break(x),
+                    });
+                    Box::new(NestedIt { st: real_stack::Stack::new(vec![mk(k)], fi), live: nlive.clone() })
+                } else {
+                    Box::new(mk(k))
+                }
+            }
+        };
+        let mk_node2 = mk_node.clone();
+        let fo = move |x: Item| match x {
+            Item::Tail(k) => ControlFlow::Continue(mk_node2(k)),
+            x => ControlFlow::Break(x),
+        };
+        let mut st = real_stack::Stack::new(vec![mk_node(0)], fo);
+        let mut trace = Vec::new();
+        for _ in 0..pulls {
+            let y = st.next();
+            let polled = std::mem::take(&mut *log.borrow_mut());
+            match y {
+                Some(Item::Out(v)) => trace.push(format!("{}>o{v}#{}/{}", polled.join(""), live.borrow(), nlive.borrow())),
+                Some(Item::Tail(_)) => trace.push("BUG-tail-escaped".into()),
+                None => {
+                    trace.push(format!("{}>end#{}/{}", polled.join(""), live.borrow(), nlive.borrow()));
+                    break;
+                }
+            }
+        }
+        println!("n{case}\t{req}\t{}", trace.join(" "));
+    }
+}
+
+// ---------------------------------------------------------------------------------------------
+// the adapters of `,` (round 2): random terms of `once` / `Chain` / `lazy` built with the REAL
+// standard-library adapters (`lazy` is private in filter.rs: `once_with(f).flatten()`, restated);
+// before every `next()` the trace records whether `size_hint() == (0, Some(0))`.
+// Request: prefix term `C a b` (chain) | `Z s` (lazy) | `Oo<v>` | `Ot<k>` | `O-` (spent once).
+
+#[derive(Clone)]
+enum AdT {
+    Once(Option<Item>),
+    Chain(Box<AdT>, Box<AdT>),
+    Lazy(Box<AdT>),
+}
+
+fn ad_build(t: &AdT) -> Box<dyn Iterator<Item = Item>> {
+    match t {
+        AdT::Once(Some(x)) => Box::new(core::iter::once(x.clone())),
+        AdT::Once(None) => {
+            let mut o = core::iter::once(Item::Out(0));
+            o.next();
+            Box::new(o)
+        }
+        AdT::Chain(a, b) => Box::new(ad_build(a).chain(ad_build(b))),
+        AdT::Lazy(s) => {
+            let s = (**s).clone();
+            Box::new(core::iter::once_with(move || ad_build(&s)).flatten())
+        }
+    }
+}
+
+fn ad_gen(rng: &mut Rng, depth: usize) -> AdT {
+    if depth == 0 || rng.chance(1, 3) {
+        return match rng.below(5) {
+            0 => AdT::Once(None),
+            1 | 2 => AdT::Once(Some(Item::Tail(rng.below(3)))),
+            _ => AdT::Once(Some(Item::Out(rng.below(5)))),
+        };
+    }
+    if rng.chance(2, 3) {
+        let a = ad_gen(rng, depth - 1);
+        // mostly the shape of `,`: the right side is lazy
+        let b = if rng.chance(3, 4) { AdT::Lazy(Box::new(ad_gen(rng, depth - 1))) } else { ad_gen(rng, depth - 1) };
+        AdT::Chain(Box::new(a), Box::new(b))
+    } else {
+        AdT::Lazy(Box::new(ad_gen(rng, depth - 1)))
+    }
+}
+
+fn ad_toks(t: &AdT, out: &mut String) {
+    match t {
+        AdT::Once(None) => out.push_str(" O-"),
+        AdT::Once(Some(Item::Out(v))) => write!(out, " Oo{v}").unwrap(),
+        AdT::Once(Some(Item::Tail(k))) => write!(out, " Ot{k}").unwrap(),
+        AdT::Chain(a, b) => {
+            out.push_str(" C");
+            ad_toks(a, out);
+            ad_toks(b, out);
+        }
+        AdT::Lazy(s) => {
+            out.push_str(" Z");
+            ad_toks(s, out);
+        }
+    }
+}
+
+fn adapters_cmd(args: &[String]) {
+    let n: usize = args.first().and_then(|s| s.parse().ok()).unwrap_or(300);
+    let mut rng = Rng::new(prng::seed_from_env() ^ 0xAD47);
+    for case in 0..n {
+        let depth = 1 + rng.below(4);
+        let t = ad_gen(&mut rng, depth);
+        let mut req = String::from("c04.adapters 40");
+        ad_toks(&t, &mut req);
+        let mut it = ad_build(&t);
+        let mut trace = Vec::new();
+        for _ in 0..40 {
+            let h = if it.size_hint() == (0, Some(0)) { "h1" } else { "h0" };
+            match it.next() {
+                Some(Item::Out(v)) => trace.push(format!("{h}o{v}")),
+                Some(Item::Tail(k)) => trace.push(format!("{h}t{k}")),
+                None => {
+                    trace.push(format!("{h}end"));
+                    break;
+                }
+            }
+        }
+        println!("a{case}\t{req}\t{}", trace.join(" "));
+    }
+}
+
 pub fn main(args: &[String]) {
     let rest = if args.is_empty() { args } else { &args[1..] };
     match args.first().map(|s| s.as_str()) {
@@ -1074,8 +1285,10 @@ pub fn main(args: &[String]) {
         Some("defs") => defs_lean(),
         Some("builtins") => builtins(),
         Some("stack") => stack_cmd(rest),
+        Some("nstack") => nstack_cmd(rest),
+        Some("adapters") => adapters_cmd(rest),
         _ => {
-            eprintln!("usage: jaqverif c04 calls [n] | defs | builtins | stack [n]");
+            eprintln!("usage: jaqverif c04 calls [n] | defs | builtins | stack [n] | nstack [n] | adapters [n]");
             std::process::exit(2)
         }
     }
